@@ -75,6 +75,7 @@ THEOREMS = ["removeDefault_equiv", "removeDefault_length", "removeDefault_target
             # entries.py
             "routes_members", "routesCore_spec", "routesCore_error", "core_roundtrip", "link_spec", "routeOpposite_links",
             "bitsOf_testBit", "mkEntry_spec", "defaultRouted_iff_opposite"]
+THEOREMS += ['gen_intersect', 'gen_get_generality']   # translator tie: generated function bodies = model (Props/C04Gen.lean)
 
 RULE = ("tables of 0-40 entries over 3-10 active key bits embedded at random positions of the 32-bit space (other "
         "positions all-X or fixed to a common value), ternary patterns with table-specific X density, orthogonal "
@@ -1591,3 +1592,4 @@ def run(ctx):
 def replay(ctx, payload):
     ctx.extra["rule"] = RULE
     eval_cases(ctx, [payload["case"]])
+THEOREMS += ['gen_routes_is_link', 'gen_routes_is_core', 'gen_routes_core_num', 'gen_routes_opposite', 'gen_routes_core']   # translator tie: generated function bodies = model (Props/C04Gen.lean)
